@@ -179,7 +179,7 @@ def install(targets=TARGETS):
         _installed.append(name)
         took += 1
     fs = sys.modules['ZODB.FileStorage.FileStorage']
-    if fs.fsync is not PROXY.fsync or fs.os is not PROXY:
+    if fs.fsync != PROXY.fsync or fs.os is not PROXY or fs.open is not rec_open:
         raise RuntimeError('file layer substitution did not take in ZODB.FileStorage.FileStorage')
     return took
 
